@@ -91,6 +91,8 @@ def gen_case(rng, tier, focus):
         p = {100: p[100]}
     if api == "advanced":
         p = {k: v for k, v in p.items() if k in (100, 101, 200, 201)}
+        if p.get(201) and rng.random() < 0.5:
+            p[201] = rng.choice([2, 3, 4, 8, 256])      # the struct field is an int: any non-zero value means "with checksum"
     kind = rng.choice(KINDS)
     size = gen_size(rng, p, tier)
     if focus == "c05" and rng.random() < 0.4:       # inputs much longer than the window, long-range repetition
